@@ -47,6 +47,7 @@ type FS struct {
 	Log      []string // operation trace: "op path"
 	FailAt   int      // operation index that fails (-1: none)
 	FailErr  error
+	FailOp   string // every operation with this name fails (e.g. "truncate")
 	CrashAt  int  // after this many operations nothing is mutated any more (-1: none)
 	Short    bool // reads/writes may transfer fewer bytes than asked
 	ShortOnFail bool // a failing write may have written any prefix
@@ -122,6 +123,20 @@ func base(path string) string {
 	return path[strings.LastIndex(path, "/")+1:]
 }
 
+// missing returns the errno for a path that does not exist: ENOTDIR when
+// one of its ancestors exists and is not a directory, else ENOENT.
+func (f *FS) missing(path string) error {
+	for p := parent(path); p != "/" && p != ""; p = parent(p) {
+		if n := f.Nodes[p]; n != nil {
+			if !n.Dir {
+				return syscall.ENOTDIR
+			}
+			break
+		}
+	}
+	return syscall.ENOENT
+}
+
 func pathErr(op, path string, err error) error {
 	return &fs.PathError{Op: op, Path: path, Err: err}
 }
@@ -136,7 +151,7 @@ func (f *FS) step(op, path string) (err error, live bool) {
 	f.Ops++
 	f.Log = append(f.Log, op+" "+path)
 	live = f.CrashAt < 0 || idx < f.CrashAt
-	if idx == f.FailAt {
+	if idx == f.FailAt || (f.FailOp != "" && op == f.FailOp) {
 		f.Failed = true
 		e := f.FailErr
 		if e == nil {
@@ -208,7 +223,7 @@ func Stat(name string) (fs.FileInfo, error) {
 	}
 	n := f.Nodes[name]
 	if n == nil {
-		return nil, pathErr("stat", name, syscall.ENOENT)
+		return nil, pathErr("stat", name, f.missing(name))
 	}
 	return infoOf(name, n), nil
 }
@@ -222,11 +237,11 @@ func OpenFile(name string, flag int, perm fs.FileMode) (*os.File, error) {
 	n := f.Nodes[name]
 	if n == nil {
 		if flag&os.O_CREATE == 0 {
-			return nil, pathErr("open", name, syscall.ENOENT)
+			return nil, pathErr("open", name, f.missing(name))
 		}
 		p := f.Nodes[parent(name)]
 		if p == nil {
-			return nil, pathErr("open", name, syscall.ENOENT)
+			return nil, pathErr("open", name, f.missing(name))
 		}
 		if !p.Dir {
 			return nil, pathErr("open", name, syscall.ENOTDIR)
@@ -269,7 +284,7 @@ func ReadFile(name string) ([]byte, error) {
 	}
 	n := f.Nodes[name]
 	if n == nil {
-		return nil, pathErr("open", name, syscall.ENOENT)
+		return nil, pathErr("open", name, f.missing(name))
 	}
 	if n.Dir {
 		return nil, pathErr("read", name, syscall.EISDIR)
@@ -297,7 +312,7 @@ func Remove(name string) error {
 	}
 	n := f.Nodes[name]
 	if n == nil {
-		return pathErr("remove", name, syscall.ENOENT)
+		return pathErr("remove", name, f.missing(name))
 	}
 	if n.Dir {
 		for k := range f.Nodes {
@@ -321,6 +336,9 @@ func RemoveAll(name string) error {
 	err, live := f.step("removeall", name)
 	if err != nil {
 		return err
+	}
+	if f.Nodes[name] == nil && f.missing(name) == syscall.ENOTDIR {
+		return pathErr("unlinkat", name, syscall.ENOTDIR)
 	}
 	if !live {
 		return nil
@@ -378,7 +396,7 @@ func Mkdir(name string, perm fs.FileMode) error {
 	}
 	p := f.Nodes[parent(name)]
 	if p == nil {
-		return pathErr("mkdir", name, syscall.ENOENT)
+		return pathErr("mkdir", name, f.missing(name))
 	}
 	if !p.Dir {
 		return pathErr("mkdir", name, syscall.ENOTDIR)
@@ -477,7 +495,10 @@ func ReadDir(name string) ([]fs.DirEntry, error) {
 	}
 	n := f.Nodes[name]
 	if n == nil {
-		return nil, pathErr("open", name, syscall.ENOENT)
+		return nil, pathErr("open", name, f.missing(name))
+	}
+	if !n.Dir {
+		return nil, pathErr("readdirent", name, syscall.ENOTDIR)
 	}
 	var out []fs.DirEntry
 	for _, k := range f.children(name) {
@@ -573,6 +594,9 @@ func FileRead(file *os.File, p []byte) (int, error) {
 	}
 	if h.node.Dir {
 		return 0, pathErr("read", h.path, syscall.EISDIR)
+	}
+	if h.flag&(os.O_WRONLY|os.O_RDWR) == os.O_WRONLY {
+		return 0, pathErr("read", h.path, syscall.EBADF)
 	}
 	if len(p) == 0 {
 		return 0, nil
